@@ -64,7 +64,7 @@ def cases_for(prop, tier, seed):
     if prop == "C02":
         return (gen.fam_single_ops(g, "C02-single") + gen.fam_creation(g, "C02-create") +
                 gen.fam_pairs(g, "C02-pair", 4 if T else 1) + gen.fam_chains(g, "C02-chain", 300 * k, depth=(2, 4)) +
-                gen.fam_reentrant_values(g, "C02-re", 6 if T else 2))
+                gen.fam_reentrant_values(g, "C02-re", 6 if T else 2) + gen.fam_big_params(g, "C02-big", ("ops",)))
     if prop == "C03":
         combs = ("merge", "concat", "zip", "amb", "take_until", "skip_until", "sample", "switch_on_next", "combine_latest", "sequence_equal", "flat_map")
         return (gen.fam_combinators(g, "C03-comb", 60 * k) + gen.fam_hot(g, "C03-hot", 200 * k, depth=(1, 3)) +
@@ -72,7 +72,7 @@ def cases_for(prop, tier, seed):
                 # callbacks that push into / complete one of the combined hot sources
                 [c for c in gen.fam_reentrant(g, "C03-re", 0) if any("(sub (%s " % op in c for op in combs)])
     if prop == "C04":
-        return gen.fam_errors(g, "C04-err", 150 * k)
+        return gen.fam_errors(g, "C04-err", 150 * k) + gen.fam_big_params(g, "C04-big", ("retry",))
     if prop == "C05":
         return (gen.fam_unsub_positions(g, "C05-unsub", 40 * k) + gen.fam_hot(g, "C05-hot", 100 * k) +
                 # unsubscribe after a terminal / twice must have no effect on OTHER subscribers of the same subject either
